@@ -127,6 +127,18 @@ def run_case(case):
         with env.Capture() as cap:
             r = realise.realise(at, k=int(rng.integers(1, 5)), rng=rng, relabel=bool(rng.integers(2)), flips="random")
             fr = frames.Frame(0, r.vertices, r.edges, r.cells)
+        if rng.random() < 0.6:
+            # a SOLVED tissue (the property's domain): the mesh edges then carry the inferred tensions; what the tensor uses are
+            # the values the interfaces carry when it is evaluated
+            try:
+                import forsys as fs
+                with env.Capture():
+                    sv_ = fs.ForSys({0: fr})
+                    sv_.build_force_matrix(when=0)
+                    sv_.solve_stress(when=0, allow_negatives=False)
+                hist["solved-first"] = hist.get("solved-first", 0) + 1
+            except Exception:
+                hist["solve-first-raised"] = hist.get("solve-first-raised", 0) + 1
         nc, nb = len(fr.cells), len(fr.big_edges)
         # reference pressures, as a Surface Evolver dump provides them: they must never leak into the tensor
         for cell in fr.cells.values():
